@@ -726,7 +726,7 @@ func runC02(c *core.Ctx) core.Meta {
 						st6.Ob(true)
 					default:
 						st6.Ob(false)
-						c.ReportAt("R02.6", fn, bo.Pos(), "cursor-step:"+phi.Comment, fmt.Sprintf("cursor %s advances by %s per piece while the piece is %s bytes long (a register cursor must advance by the piece size / 4)", phi.Comment, short(prov.Of(bo.Y)), short(prov.Of(X))))
+						c.ReportAt("R02.6", fn, bo.Pos(), "cursor-step:"+core.PinnedName(fn, phi.Comment), fmt.Sprintf("cursor %s advances by %s per piece while the piece is %s bytes long (a register cursor must advance by the piece size / 4)", phi.Comment, short(prov.Of(bo.Y)), short(prov.Of(X))))
 					}
 				}
 			}
